@@ -31,7 +31,8 @@ def make_blobs():
     out = {}
     for name, (l0, l1, l2), sid in (("a55", (361, 5, 5), SID_A), ("a60", (361, 6, 0), SID_A), ("a31", (361, 31, 31), SID_A),
                                     ("n55", (362, 5, 5), SID_A), ("b55", (361, 5, 5), SID_B), ("a77", (361, 7, 7), SID_A), ("a78", (361, 7, 8), SID_A),
-                                    ("a5v", (361, 5, 31), SID_A)):     # (5, 31) and (6, 0) are neighbours in the position order
+                                    ("a5v", (361, 5, 31), SID_A),
+                                    ("a05", (361, 0, 5), SID_A), ("a03", (361, 0, 3), SID_A)):     # the first L1 interval of an L0: a DC envelope there has NO L1 key     # (5, 31) and (6, 0) are neighbours in the position order
         dc = fresh_dc()
         sim = clientsim.Sim(dc)
         with sim.world():
@@ -43,7 +44,7 @@ def make_blobs():
     return out
 
 
-ALPHABET = ["L", "Ua55", "Ua60", "Ua31", "Un55", "Ub55", "Ua77", "Ua5v", "P", "Pn", "Pq", "Xa60", "Xa77", "M"]
+ALPHABET = ["L", "Ua05", "Ua03", "Ua55", "Ua60", "Ua31", "Un55", "Ub55", "Ua77", "Ua5v", "P", "Pn", "Pq", "Xa60", "Xa77", "M"]
 # "M": load a DIFFERENT root key (another id): what the cache holds for the first root key is none of its business
 OTHER_ROOT = refdc.RootKeyRec(uuid.UUID("11111111-2222-3333-4444-555555555555"), bytes(range(100, 164)))
 # "X…": unprotect of a DAMAGED copy of that blob (last content octet flipped): the key is obtained as for the intact blob, then decryption
@@ -183,6 +184,10 @@ def run(ctx):
     cases = []
     depth = 5 if ctx.thorough else 4
     small = ["L", "Ua55", "Ua60", "Un55", "Ub55", "Ua77", "Ua5v", "P", "Pn", "Pq", "Xa60", "M"]
+    # histories inside the first L1 interval of an L0 period
+    for ops in itertools.product(["Ua05", "Ua03", "L", "Pn"], repeat=3):
+        cases_early = run_history(ctx, list(ops), blobs)
+        ctx.count("history_depth:first_l1_interval")
     n = 0
     for d in range(1, depth + 1):
         if d <= 3:
